@@ -329,7 +329,9 @@ class HTTP(BaseComponent):
             del self._buffers[sock]
             self._mark_closing(sock)
             return self.fire(httperror(req, res, 400, description='Invalid Content-Length'))
-        if (clen or req.headers.get('Transfer-Encoding') == 'chunked') and not parser.is_message_complete():
+        # (the parser knows whether the body is chunked whatever the case
+        # of the header's value)
+        if (clen or parser.is_chunked()) and not parser.is_message_complete():
             return None
 
         if hasattr(sock, 'getpeercert'):
